@@ -43,7 +43,6 @@ SBML_DOT = "__SBML_DOT__"
 
 UNARY = {
     "sqrt": libsbml.AST_FUNCTION_ROOT,
-    "remainder": libsbml.AST_FUNCTION_REM,
     "abs": libsbml.AST_FUNCTION_ABS,
     "ceil": libsbml.AST_FUNCTION_CEILING,
     "sin": libsbml.AST_FUNCTION_SIN,
@@ -64,6 +63,7 @@ UNARY = {
 
 BINARY = {
     "power": libsbml.AST_POWER,
+    "remainder": libsbml.AST_FUNCTION_REM,
 }
 
 NARY = {
@@ -181,14 +181,22 @@ def _convert_ifexp(node: ast.IfExp) -> libsbml.ASTNode:
     return sbml_node
 
 
+def _check_arity(func: str, node: ast.Call, arity: int) -> None:
+    if len(node.args) != arity:
+        msg = f"{func} with {len(node.args)} positional arguments"
+        raise NotImplementedError(msg)
+
+
 def _convert_direct_call(node: ast.Call) -> libsbml.ASTNode:
     func = cast(ast.Name, node.func).id
 
     if (typ := UNARY.get(func)) is not None:
+        _check_arity(func, node, 1)
         sbml_node = libsbml.ASTNode(typ)
         sbml_node.addChild(_convert_node(node.args[0]))
         return sbml_node
     if (typ := BINARY.get(func)) is not None:
+        _check_arity(func, node, 2)
         sbml_node = libsbml.ASTNode(typ)
         sbml_node.addChild(_convert_node(node.args[0]))
         sbml_node.addChild(_convert_node(node.args[1]))
@@ -211,10 +219,12 @@ def _convert_library_call(node: ast.Call) -> libsbml.ASTNode:
 
     if parent in ("math", "np", "numpy"):
         if (typ := UNARY.get(attr)) is not None:
+            _check_arity(attr, node, 1)
             sbml_node = libsbml.ASTNode(typ)
             sbml_node.addChild(_convert_node(node.args[0]))
             return sbml_node
         if (typ := BINARY.get(attr)) is not None:
+            _check_arity(attr, node, 2)
             sbml_node = libsbml.ASTNode(typ)
             sbml_node.addChild(_convert_node(node.args[0]))
             sbml_node.addChild(_convert_node(node.args[1]))
